@@ -37,10 +37,10 @@ def collect():
         shutil.copytree(d, dst)
         print('collected', sid)
     # round 2: /tmp/w2_Cxx/out/m1,m2 -> Cxx_m4, Cxx_m5 ; round 3: /tmp/w3_Cxx/out/m1,m2 -> Cxx_m6, Cxx_m7 ; round 4: /tmp/w4_Cxx -> Cxx_m8, Cxx_m9 ; round 5: /tmp/w5_Cxx -> Cxx_m10, Cxx_m11 ; round 6: /tmp/w6_Cxx -> Cxx_m12, Cxx_m13 (only directories that hold meta.json, patch.diff and a demo are collected)
-    for d in sorted(glob.glob('/tmp/w2_C*/out/m*')) + sorted(glob.glob('/tmp/w3_C*/out/m*')) + sorted(glob.glob('/tmp/w4_C*/out/m*')) + sorted(glob.glob('/tmp/w5_C*/out/m*')) + sorted(glob.glob('/tmp/w6_C*/out/m*')):
+    for d in sorted(glob.glob('/tmp/w2_C*/out/m*')) + sorted(glob.glob('/tmp/w3_C*/out/m*')) + sorted(glob.glob('/tmp/w4_C*/out/m*')) + sorted(glob.glob('/tmp/w5_C*/out/m*')) + sorted(glob.glob('/tmp/w6_C*/out/m*')) + sorted(glob.glob('/tmp/w7_C*/out/m*')):
         rnd = int(re.search(r'/w(\d)_C', d).group(1))
         prop = re.search(r'w\d_(C\d+)', d).group(1)
-        n = int(os.path.basename(d)[1:]) + {2: 3, 3: 5, 4: 7, 5: 9, 6: 11}[rnd]
+        n = int(os.path.basename(d)[1:]) + {2: 3, 3: 5, 4: 7, 5: 9, 6: 11, 7: 11}[rnd]
         sid = '%s_m%d' % (prop, n)
         dst = os.path.join(SEEDED, sid)
         if os.path.exists(dst):
